@@ -279,6 +279,29 @@ def handleGitCfg (req : Json) : Except String Json := do
     | c :: cs => let s' := step s c; encStore s' :: go s' cs
   pure (Json.mkObj [("ok", .arr (go ⟨cfg, attrs⟩ cmds).toArray)])
 
+def objKvs (j : J) : List (String × J) :=
+  match j with
+  | .obj o => o
+  | _ => []
+
+open Nbdime.Config in
+def handleCfg (req : Json) : Except String Json := do
+  let mro ← match req.getObjVal? "mro" with
+    | .ok (.arr xs) => xs.toList.mapM (fun c => do
+        let name ← c.getObjValAs? String "name"
+        let own ← decJ (c.getObjValD "own")
+        pure ({ name := name, own := objKvs own } : Cls))
+    | _ => throw "cfg.mro"
+  let files ← match req.getObjVal? "files" with
+    | .ok (.arr xs) => xs.toList.mapM (fun f => do pure (objKvs (← decJ f)))
+    | _ => throw "cfg.files"
+  let disk := diskConfig files
+  let inter := match req.getObjVal? "interleaved" with
+    | .ok (.bool true) => true
+    | _ => false
+  let r := if inter then buildConfigInterleaved mro disk else buildConfig mro disk
+  pure (Json.mkObj [("ok", encJ (.obj r))])
+
 def handle (req : Json) : Except String Json := do
   let cmd ← req.getObjValAs? String "cmd"
   match cmd with
@@ -287,6 +310,7 @@ def handle (req : Json) : Except String Json := do
       let d ← decDiff (req.getObjValD "diff")
       pure (reply (patch doc d) encJ)
   | "gitcfg" => handleGitCfg req
+  | "cfg" => handleCfg req
   | "hist" =>
       match req.getObjVal? "calls" with
       | .ok (.arr xs) => do
